@@ -105,6 +105,14 @@ def cases(shard, nshards, seed, tier):
         for t in range(2 if tier == "quick" else 6):
             if mine():
                 yield {"family": "T4-format-alternate-conformers", "file": fn, "base_ops": [], "twin": {"kind": "T4", "altlocs": f"{seed}:{fn}:alt{t}"}}
+    # format twins of tables whose PDB fields are filled to their edges (HETATM10001, x <= -100, negative numbers), and
+    # of tables in which one atom sits exactly on the origin (coordinate fields reading 0.000)
+    for fn in [f for f in files if f.endswith(("1ehz-assembly-1.cif", "1ATO.pdb", "1E7K_1_C.cif", "4qln.pdb", "488d.pdb"))]:
+        for t in range(1 if tier == "quick" else 5):
+            if mine():
+                yield {"family": "T4-format-field-edges", "file": fn, "base_ops": [], "twin": {"kind": "T4", "edges": f"{seed}:{fn}:edges{t}"}}
+            if mine():
+                yield {"family": "T4-format-atom-on-origin", "file": fn, "base_ops": [{"op": "atom-to-origin", "seed": f"{seed}:{fn}:o4{t}"}], "twin": {"kind": "T4"}}
     # rigid motion of the file itself, with chains of nearly superposed copies (a-b and b-c closer than 0.5 A, a-c not)
     for fn in [f for f in files if f.endswith(("1ATO.pdb", "1A1T_1_B.cif", "1E7K_1_C.cif", "1HMH_1_E.cif", "184D.cif"))]:
         for t in range(2 if tier == "quick" else 10):
@@ -378,7 +386,7 @@ def run_case(case, rec):
     else:
         from vmon import emit
 
-        res = emit.format_twins(base, altloc_seed=tw.get("altlocs"))
+        res = emit.format_twins(base, altloc_seed=tw.get("altlocs"), edges_seed=tw.get("edges"))
         if res is None:
             rec.skip("twin.interactions-equal", "outside-PDB-limits-or-multi-char-chain")
             return
